@@ -21,30 +21,30 @@ Definition file_names : list bytes := [bs "tcp"; bs "tcp6"; bs "udp"; bs "udp6";
 
 (* a kernel-shaped state: printed files, is the state in the theorems' domain, then per kind
    [model; demanded entries] system-wide, and the same for the processes selected by index *)
-Definition run_state (le : bool) (st : kstate) (ks : list bytes) (sel : list (nat * list bytes)) : jv :=
+Definition run_state (v : variant) (le : bool) (st : kstate) (ks : list bytes) (sel : list (nat * list bytes)) : jv :=
   let files := k_files le st in
   JL [ JL (map (fun n => jopt JB (files n)) file_names);
        jbool (wf_state st && files_text_safe le st);
-       JL (map (fun k => JL [ jv_outcome jrows (net_connections le files (to_procs (k_procs st)) k);
+       JL (map (fun k => JL [ jv_outcome jrows (net_connections v le files (to_procs (k_procs st)) k);
                               jentries (spec_sys k st) ]) ks);
        JL (map (fun s =>
                   match nth_error (k_procs st) (fst s) with
                   | Some p =>
-                    JL (map (fun k => JL [ jv_outcome jrows (proc_net_connections le files (p_pid p) (to_listing p) k);
+                    JL (map (fun k => JL [ jv_outcome jrows (proc_net_connections v le files (p_pid p) (to_listing p) k);
                                            jentries (spec_proc p k st) ]) (snd s))
                   | None => jnone
                   end) sel) ].
 
 (* arbitrary (possibly malformed) files and descriptor tables: model answers only *)
 Definition files_of (fs : list (bytes * bytes)) (n : bytes) : option bytes := assoc n fs.
-Definition run_raw (le : bool) (fs : list (bytes * bytes)) (procs : list (Z * listing))
+Definition run_raw (v : variant) (le : bool) (fs : list (bytes * bytes)) (procs : list (Z * listing))
            (ks : list bytes) (sel : list (nat * list bytes)) : jv :=
   let files := files_of fs in
-  JL [ JL (map (fun k => jv_outcome jrows (net_connections le files procs k)) ks);
+  JL [ JL (map (fun k => jv_outcome jrows (net_connections v le files procs k)) ks);
        JL (map (fun s =>
                   match nth_error procs (fst s) with
                   | Some (pid, ls) =>
-                    JL (map (fun k => jv_outcome jrows (proc_net_connections le files pid ls k)) (snd s))
+                    JL (map (fun k => jv_outcome jrows (proc_net_connections v le files pid ls k)) (snd s))
                   | None => jnone
                   end) sel) ].
 
